@@ -19,4 +19,4 @@ Ltac frame_split g :=
       | _ => let E := fresh "E" in destruct e eqn:E; clear E
       end
   end.
-Ltac frame_core rw g := repeat (first [ progress rw | frame_split g ]); try reflexivity; try congruence.
+Ltac frame_core rw g := repeat (first [ progress rw | progress (cbn [fst snd] in * ) | frame_split g ]); try reflexivity; try congruence.
